@@ -99,16 +99,16 @@ Proof. eexists. eexists. split; [vm_compute; reflexivity|]. repeat split. Qed.
 (* "No modification made meanwhile is lost": the database after the run is the fold of the atomic updates
    in execution order, each of them valid in the database current at that moment (a retract answer
    deletes an Answer that is present THEN) *)
-Theorem C14_compiled_no_lost_update : forall uf prog n gs s g g' a tr,
-  ids_ok (gdb g) (gid g) -> solve uf prog n gs s g = Some (g', a, tr) ->
+Theorem C14_compiled_no_lost_update : forall uf prog n gs s g g' a tr fl,
+  ids_ok (gdb g) (gid g) -> solve uf prog n gs s g = Some (g', a, tr, fl) ->
   valid_trace (gdb g) (gid g) tr /\ (forall k, gdb g' k = apply_outs tr (gdb g) k) /\ ids_ok (gdb g') (gid g').
 Proof. exact prog_no_lost_update. Qed.
 Print Assumptions C14_compiled_no_lost_update.
 
 (* "never removing or returning a fact twice": over all retract goals of a run, however nested, and all
    retractall calls *)
-Theorem C14_compiled_retract_at_most_once : forall uf prog n gs s g g' a tr,
-  ids_ok (gdb g) (gid g) -> solve uf prog n gs s g = Some (g', a, tr) -> NoDup (removed tr).
+Theorem C14_compiled_retract_at_most_once : forall uf prog n gs s g g' a tr fl,
+  ids_ok (gdb g) (gid g) -> solve uf prog n gs s g = Some (g', a, tr, fl) -> NoDup (removed tr).
 Proof. exact prog_retract_at_most_once. Qed.
 Print Assumptions C14_compiled_retract_at_most_once.
 
@@ -142,8 +142,8 @@ Proof. split; vm_compute; reflexivity. Qed.
    retractall (ORAll), and for every answer of a goal (OAns) or of a retract (ORet) the same Answer identity and the
    same answer up to an injective renaming of cells (tr_eqv; the two machines allocate the copy of the fact at
    different cells; proof: increment property and equivariance of unify, C13's invariant). *)
-Theorem C14_compiled_run_is_cursor_history : forall uf prog, prog_ok prog -> forall n gs s g g' a tr F st,
-  cinv F gs s g -> solve uf prog n gs s g = Some (g', a, tr) -> Rst g st ->
+Theorem C14_compiled_run_is_cursor_history : forall uf prog, prog_ok prog -> forall n gs s g g' a tr fl F st,
+  cinv F gs s g -> solve uf prog n gs s g = Some (g', a, tr, fl) -> Rst g st ->
   exists evs st' outs, run (match_fact uf) st evs = Some (st', outs) /\ Rst g' st' /\ tr_eqv tr (dbouts outs).
 Proof. exact prog_run_is_cursor_history. Qed.
 Print Assumptions C14_compiled_run_is_cursor_history.
@@ -151,8 +151,8 @@ Print Assumptions C14_compiled_run_is_cursor_history.
 (* C14_cursor_visits_snapshot transferred: in the history of a compiled run, from any point on (pre ++ post), every
    generator that holds its snapshot returns exactly the matching facts of that snapshot, in order, then
    StopIteration - whatever the rest of the run asserts or retracts *)
-Theorem C14_compiled_cursor_visits_snapshot : forall uf prog, prog_ok prog -> forall n gs s g g' a tr F,
-  cinv F gs s g -> solve uf prog n gs s g = Some (g', a, tr) ->
+Theorem C14_compiled_cursor_visits_snapshot : forall uf prog, prog_ok prog -> forall n gs s g g' a tr fl F,
+  cinv F gs s g -> solve uf prog n gs s g = Some (g', a, tr, fl) ->
   exists evs st' outs, run (match_fact uf) (st_of g) evs = Some (st', outs) /\ Rst g' st' /\ tr_eqv tr (dbouts outs) /\
     forall pre post st1 o1 st2 o2 c L, evs = pre ++ post ->
       run (match_fact uf) (st_of g) pre = Some (st1, o1) -> run (match_fact uf) st1 post = Some (st2, o2) ->
@@ -164,8 +164,8 @@ Print Assumptions C14_compiled_cursor_visits_snapshot.
 (* C14_no_lost_update and C14_retract_at_most_once transferred: the database after the compiled run is the fold
    of the atomic updates of its history, and the Answers removed by the run are those removed by the history,
    pairwise different *)
-Theorem C14_compiled_history_no_lost_update : forall uf prog, prog_ok prog -> forall n gs s g g' a tr F,
-  cinv F gs s g -> ids_ok (gdb g) (gid g) -> solve uf prog n gs s g = Some (g', a, tr) ->
+Theorem C14_compiled_history_no_lost_update : forall uf prog, prog_ok prog -> forall n gs s g g' a tr fl F,
+  cinv F gs s g -> ids_ok (gdb g) (gid g) -> solve uf prog n gs s g = Some (g', a, tr, fl) ->
   exists evs st' outs, run (match_fact uf) (st_of g) evs = Some (st', outs) /\ Rst g' st' /\ tr_eqv tr (dbouts outs) /\
     (forall k, gdb g' k = apply_outs outs (gdb g) k) /\ ids_ok (gdb g') (gid g') /\
     NoDup (removed outs) /\ removed tr = removed outs.
@@ -178,7 +178,7 @@ Example C14_compiled_history_nonvacuous :
   let p x := TFun (d "p") [x] in
   let prog := [mkcl (d "t") 1 [TVar 0] [GAssert false (p (TInt 1)); GCall (d "p") [TVar 0]; GAssert false (p (TInt 2))]] in
   prog_ok prog /\ cinv (fun _ => false) [GCall (d "t") [TVar 0]] [] (ginit 1 1000) /\ Rst (ginit 1 1000) init /\
-  exists g' a tr, solve 50 prog 100 [GCall (d "t") [TVar 0]] [] (ginit 1 1000) = Some (g', a, tr) /\ length tr = 3 /\ length a = 1.
+  exists g' a tr, solve 50 prog 100 [GCall (d "t") [TVar 0]] [] (ginit 1 1000) = Some (g', a, tr, None) /\ length tr = 3 /\ length a = 1.
 Proof.
   cbv zeta. split; [|split; [|split]].
   - repeat constructor; simpl; try tin_small.
